@@ -231,7 +231,10 @@ pub mod python {
 
         #[pyo3(text_signature = "($self, n)")]
         pub(crate) fn kept_history_length(&mut self, n: i64) {
-            self.0.kept_history_length = n.try_into().expect("Parameter must be a positive number");
+            self.0 = self
+                .0
+                .clone()
+                .kept_history_length(n.try_into().expect("Parameter must be a positive number"));
         }
 
         #[pyo3(text_signature = "($self, n)")]
@@ -259,7 +262,7 @@ pub mod python {
 
         #[pyo3(text_signature = "($self, length)")]
         pub(crate) fn visual_minimal_track_length(&mut self, length: i64) {
-            self.0.metric_builder.set_visual_minimal_track_length(
+            self.0 = self.0.clone().visual_minimal_track_length(
                 length
                     .try_into()
                     .expect("Parameter must be a positive number"),
@@ -268,17 +271,17 @@ pub mod python {
 
         #[pyo3(text_signature = "($self, area)")]
         pub(crate) fn visual_minimal_area(&mut self, area: f32) {
-            self.0.metric_builder.set_visual_minimal_area(area);
+            self.0 = self.0.clone().visual_minimal_area(area);
         }
 
         #[pyo3(text_signature = "($self, q)")]
         pub(crate) fn visual_minimal_quality_use(&mut self, q: f32) {
-            self.0.metric_builder.set_visual_minimal_quality_use(q);
+            self.0 = self.0.clone().visual_minimal_quality_use(q);
         }
 
         #[pyo3(text_signature = "($self, conf)")]
         pub(crate) fn positional_min_confidence(&mut self, conf: f32) {
-            self.0.metric_builder.set_positional_min_confidence(conf);
+            self.0 = self.0.clone().positional_min_confidence(conf);
         }
 
         #[pyo3(text_signature = "($self, n)")]
@@ -290,21 +293,23 @@ pub mod python {
 
         #[pyo3(text_signature = "($self, q)")]
         pub(crate) fn visual_minimal_quality_collect(&mut self, q: f32) {
-            self.0.metric_builder.set_visual_minimal_quality_collect(q);
+            self.0 = self.0.clone().visual_minimal_quality_collect(q);
         }
 
         #[pyo3(text_signature = "($self, area)")]
         pub(crate) fn visual_minimal_own_area_percentage_use(&mut self, area: f32) {
-            self.0
-                .metric_builder
-                .set_visual_minimal_own_area_percentage_use(area);
+            self.0 = self
+                .0
+                .clone()
+                .visual_minimal_own_area_percentage_use(area);
         }
 
         #[pyo3(text_signature = "($self, area)")]
         pub(crate) fn visual_minimal_own_area_percentage_collect(&mut self, area: f32) {
-            self.0
-                .metric_builder
-                .set_visual_minimal_own_area_percentage_collect(area);
+            self.0 = self
+                .0
+                .clone()
+                .visual_minimal_own_area_percentage_collect(area);
         }
 
         #[pyo3(text_signature = "($self, weight)")]
